@@ -118,7 +118,7 @@ def c11(tier):
             "C11_simplify_sound_partial covers trees that elaborate (capture groups, named groups, flag groups included; not \\Q..\\E) under syntactic guards; prefix/suffix factoring only in trees without flag groups and in its sound instances; other trees rely on the per-case certificate",
             "C11_simplify_final_sound_partial speaks about the tree whose text the checker prints after its two passes; that the parser's tree of the first pass's text means what the first pass emitted is a decidable link (same_meaning) evaluated by the kernel per case, not a theorem",
             "the matcher model is claimed to be Go's semantics only where every loop body consumes at least one rune (no empty-width cycle); patterns outside are excluded from ties, certificate and in_fragment; that the tree emitted for an in_fragment tree stays inside this domain is part of C11_simplify_sound_partial",
-            "subjects are valid UTF-8; case folding is modelled for ASCII, U+212A and U+017F only; \\p{..} classes and an operator directly after a flag group are outside the model",
+            "a repeat with a zero-padded count ({007}: literal text for Go, a repeat for the checker's parser) does not elaborate: outside the model, the ties and the theorems", "subjects are valid UTF-8; case folding is modelled for ASCII, U+212A and U+017F only; \\p{..} classes and an operator directly after a flag group are outside the model",
         ],
         trusted=["Go harness internal/c11 (generators, tree dump, classification of oracle witnesses)",
                  "coqc is also run by the harness itself to obtain the model's pass-1 text, whose parse tree the real parser then supplies"])
